@@ -33,6 +33,18 @@ Theorem C14_timeout_only_when_armed :
 Proof. exact src_fire_only_when_armed. Qed.
 Print Assumptions C14_timeout_only_when_armed.
 
+(* the property's last sentence: once the timer was stopped (handshake approved, hello
+   phase left, connection closed) no timeout is committed by ANY generation — in
+   particular none belonging to an earlier phase — until a timer is armed again *)
+Theorem C14_no_timeout_after_stop_until_rearmed :
+  forall m, src_mech = Some m ->
+  forall pre to post s g,
+    exec m t_init (pre ++ LStop to :: post) = Some s ->
+    forallb (fun a => negb (is_arm a)) post = true ->
+    ~ In (LFire g) post.
+Proof. exact src_no_timeout_after_stop. Qed.
+Print Assumptions C14_no_timeout_after_stop_until_rearmed.
+
 (* each armed timer commits at most one timeout and delivers at most one, and a delivery
    is preceded by its commit *)
 Theorem C14_each_timer_delivers_at_most_once :
